@@ -163,6 +163,10 @@ def gen_case(rng, index, tier):
         opts = ['--trash-dir', '@/' + P + '/lk/../' + bn]
         via_link = t['rel']
         odd.append('trash-dir-via-link-dotdot')
+    if cmd.startswith('empty') and rng.random() < 0.35:
+        # the verbose modes walk the same paths (and may touch them to
+        # describe them)
+        opts = opts + [rng.choice(['-v', '-v', '-vv', '--verbose', '-f'])]
     case = L.desc()
     case['env'] = dict(case['env'], TRASH_DATE='2020-01-01T00:00:00')
     case['cmd'] = cmd
